@@ -32,6 +32,19 @@ type Store struct {
 	// FailAt makes the n-th (1-based) subsequent mutating call fail when > 0.
 	failAt int
 	count  int
+
+	// duringWrite, when set, runs once in the middle of the next Write whose key is duringKey
+	// (before the value is stored, without the store's own lock held): what a slow storage
+	// back-end gives other callers time to do.
+	duringKey   string
+	duringWrite func()
+}
+
+// DuringNextWrite arranges for f to run once inside the next Write of key.
+func (s *Store) DuringNextWrite(key string, f func()) {
+	s.mu.Lock()
+	s.duringKey, s.duringWrite = key, f
+	s.mu.Unlock()
 }
 
 var _ storage.Storage = (*Store)(nil)
@@ -104,6 +117,12 @@ func (s *Store) fails() bool {
 
 func (s *Store) Write(ctx context.Context, key string, body []byte, o *storage.Options) error {
 	s.mu.Lock()
+	if f := s.duringWrite; f != nil && key == s.duringKey {
+		s.duringWrite = nil
+		s.mu.Unlock()
+		f()
+		s.mu.Lock()
+	}
 	defer s.mu.Unlock()
 	if s.fails() {
 		return ErrInjected
